@@ -30,7 +30,9 @@
 (*   sine at a special phase k/24 matches the algebraic class to 1e-12,    *)
 (*   always: range, half-cycle sign, antisymmetry with the twin;           *)
 (*   every output finite and in [-1, 1]; pulls = frames (twins: + 1);      *)
-(*   noise in [-1, 1] and one value per index across all instances.        *)
+(*   noise in [-1, 1] and one value per index across all instances, in     *)
+(*   every build profile, at every counter - in particular where an        *)
+(*   operation of the hash chain crosses 2^64 (reset cfg.cross, verified). *)
 (***************************************************************************)
 EXTENDS Osc, TLC, Json, IOUtils
 
@@ -152,7 +154,14 @@ AcceptAgg ==
 
 ---------------------------------------------------------------------------
 (* noise *)
-AcceptResetNoise == Ev.r.k = "unit" /\ Ev.o.ok /\ IsSJson(Ev.cfg.seed)
+\* cfg.cross / cfg.at: the stimulus claims that the counter seed + at takes the listed operations of the hash
+\* chain across 2^64 (or yields the all-ones output): verified here on exact naturals (Osc.tla NoiseCross), so the
+\* constants of the generator are not taken on trust.  The expectation is the same in every build profile:
+\* a value in [-1, 1] at every index (AcceptNoiseNext: a panic is not an output).
+AcceptResetNoise ==
+  /\ Ev.r.k = "unit" /\ Ev.o.ok /\ IsSJson(Ev.cfg.seed) /\ Ev.cfg.seed.n = 0
+  /\ BCmp(Ev.cfg.seed.l, BPow2(64)) < 0 /\ Ev.cfg.at \in 0..64
+  /\ \A i \in 1..Len(Ev.cfg.cross) : NoiseLabelOK(U64(BAdd(Ev.cfg.seed.l, BFromNat(Ev.cfg.at))), Ev.cfg.cross[i])
 InstOK(i) == i \in 0..2
 AcceptNoiseNext ==
   /\ InstOK(Ev.a.inst) /\ nz.idx[Ev.a.inst + 1] >= 0
